@@ -93,7 +93,12 @@ def gen(chk):
               ([4, 2], [1, 2], [[1, 0], [0, 1]]),
               ([4, 5, 7, 8], [2, 3], [[0, 3, 1, 2], [0, 2, 1, 3], [3, 2, 1, 0]]),
               ([3, 3, 3, 3], [3, 1], [[0, 3, 1, 2], [0, 2, 1, 3], [3, 2, 1, 0]]),
-              ([6, 4, 4, 6], [2, 2], [[0, 3, 1, 2], [0, 2, 1, 3], [3, 2, 1, 0]])]
+              ([6, 4, 4, 6], [2, 2], [[0, 3, 1, 2], [0, 2, 1, 3], [3, 2, 1, 0]]),
+              # fewer points than processes along a distributed dimension: processes with empty blocks (the first two
+              # hung before 61c5b80: a process with buffer size 0 skipped the Alltoall its neighbours were waiting in)
+              ([2, 1, 1], [2, 3, 1], [[1, 0, 2], [1, 2, 0], [0, 2, 1]]),
+              ([1, 1, 3], [2, 1, 3], [[2, 1, 0], [1, 2, 0], [1, 0, 2]]),
+              ([4, 4, 2, 2], [2, 3], [[0, 3, 1, 2], [0, 2, 1, 3], [3, 2, 1, 0]])]
     cfgs = list(corpus)
     while len(cfgs) < ncfg:
         cfgs.append(gens.handler_config(rng, max_ranks=6 if quick else 12, max_extent=6 if quick else 9))
